@@ -186,44 +186,40 @@ Definition need_doc (c : config T) : bool :=
   is_some (min_docfreq c) || is_some (min_dococc c) || is_some (max_docfreq c) || is_some (max_dococc c)
   || is_some (max_unique c).
 
-(* the vocabulary part of preprocess_token_sequences *)
-Definition learn_vocab (c : config T) (docs : list (list T)) (d0 : option dict) : res (dict * list Z) :=
-  let '(d_, tf, n) := construct (concat docs) d0 in
-  match d0 with
-  | Some d => Ok (d, tf)
-  | None =>
-      let df := if need_doc c then doc_freqs docs d_ else [] in
-      prune c d_ tf df n (Z.of_nat (length docs))
-  end.
-
 (* second stage (ngram_vectorizer.py:252-286, ngram_token_cooccurence_vectorizer.py:490-530): the same
    construction and pruning applied to the documents' n-grams as tokens, without excluded tokens / regex, and the
    document frequencies are computed only if a document bound is set (max_unique_tokens alone does not). *)
 Definition need_doc2 (c : config T) : bool :=
   is_some (min_docfreq c) || is_some (min_dococc c) || is_some (max_docfreq c) || is_some (max_dococc c).
 
-End Vocab.
-
-Arguments dict T : clear implicits.
-
-Definition stage2_config {T U} (c : config T) : config U :=
+Definition stage2_config (c : config T) : config T :=
   {| ignored := []; use_regex := false; max_unique := max_unique c;
      min_occ := min_occ c; max_occ := max_occ c; min_freq := min_freq c; max_freq := max_freq c;
      min_dococc := min_dococc c; max_dococc := max_dococc c;
      min_docfreq := min_docfreq c; max_docfreq := max_docfreq c |}.
 
-Section Stage2.
-Variable U : Type.
-Variable eqb ltb : U -> U -> bool.
-Variables f32div f64div : Z -> Z -> Z.
-Variable f64to32 : Z -> Z.
-Variable one64 : Z.
+(* dictionary construction + pruning; [need] says whether the document frequencies are computed *)
+Definition learn_gen (need : bool) (c : config T) (docs : list (list T)) (d0 : option dict)
+  : res (dict * list Z) :=
+  let '(d_, tf, n) := construct (concat docs) d0 in
+  match d0 with
+  | Some d => Ok (d, tf)
+  | None =>
+      let df := if need then doc_freqs docs d_ else [] in
+      prune c d_ tf df n (Z.of_nat (length docs))
+  end.
 
-Definition learn_ngram_vocab (c : config U) (gram_docs : list (list U)) : res (dict U * list Z) :=
-  let '(d_, tf, n) := construct U eqb ltb f32div (concat gram_docs) None in
-  let df := if need_doc2 U c then doc_freqs U eqb ltb f64div gram_docs d_ else [] in
-  prune U eqb (fun _ => false) f64div f64to32 one64 c d_ tf df n (Z.of_nat (length gram_docs)).
-End Stage2.
+(* the vocabulary part of preprocess_token_sequences *)
+Definition learn_vocab (c : config T) (docs : list (list T)) (d0 : option dict) : res (dict * list Z) :=
+  learn_gen (need_doc c) c docs d0.
+
+(* the n-gram vocabulary: T is the type of n-grams, gram_docs the n-grams of each document *)
+Definition learn_ngram_vocab (c : config T) (gram_docs : list (list T)) : res (dict * list Z) :=
+  learn_gen (need_doc2 c) (stage2_config c) gram_docs None.
+
+End Vocab.
+
+Arguments dict T : clear implicits.
 
 (* lexicographic order on index tuples (python tuple comparison) *)
 Fixpoint lex_ltb (a b : list Z) : bool :=
